@@ -54,7 +54,9 @@ def run(ctx: Ctx):
     cats = dict(sound_core=lambda c, lg, t: (f'C03:sound_core:{lg}:{"_".join(t)}', f'{lg}: side condition fails: {" ".join(t)}',
                                             dict(logic=lg, theorem=f'Ptx.Gen.Obl.{lg}.sound_core'), False),
                 tables_total=lambda c, lg, t: (f'C03:tables_total:{lg}', f'{lg}: tables not total', dict(logic=lg, theorem='tables_total'), False))
-    logicobl.decide_rows(ctx, cats, THMS, extra_modules=['Ptx.Props.C03'])
+    from .c02 import write_obligations
+    write_obligations(sorted(n for n, d in logicobl.regenerate().items() if 'fatal' not in d))
+    logicobl.decide_rows(ctx, cats, THMS, extra_modules=['Ptx.Props.C03', 'Ptx.Gen.ObMeasure', 'Ptx.Gen.ObHintikka'])
     rng = ctx.rng
     pool = small_sentences()
     logics = sorted(n for n, d in data.items() if 'fatal' not in d)
